@@ -237,3 +237,89 @@ def reconstruct_call(p, cfg, truth, loss_type, batch_size, reset, autograd=True,
         del p.step_optimizers
         del p.reset_recon
     return rec
+
+
+# ----------------------------------------------------------------------------- alternative entry points
+def make_ptycho_alternative(cfg, intensities4d, probe_lib, phi, route):
+    """the same problem set up through the OTHER public entry points (route: dict of booleans):
+    * delegated      the raw (un-preprocessed) dataset model is handed to Ptychography.from_models and ALL dataset preprocessing
+                     runs inside ptycho.preprocess(com_fit_function=..., force_com_rotation=..., force_com_transpose=...,
+                     obj_padding_px=..., vectorized=..., plot_*=False) — every forwarded argument is passed there
+    * vectorized     False: looped centre-of-mass path
+    * obj_from_array ground-truth object handed to ObjectPixelated.from_array (public factory) instead of being written later
+    * probe_setter   False (single mode only): the probe stays what ProbePixelated.from_array + set_initial_probe make of it
+                     (rescaled to the mean pattern intensity, which IS the ground truth's intensity for unit-amplitude objects)
+    * dz_attribute   slice thicknesses given through the ptycho.slice_thicknesses attribute after construction (constructor
+                     gets a different value) — propagators must be recomputed
+    phi may be None when obj_from_array is False and the caller installs the truth.  Returns the Ptychography object."""
+    Q = _q()
+    torch = Q.torch
+    r0, r1 = cfg["roi"]
+    sr, sc = cfg["samp"]
+    st_r, st_c = cfg["step"]
+    S = cfg["slices"]
+    kw = dict(com_fit_function=cfg["com"], force_com_rotation=cfg.get("rotation_deg", 0), force_com_transpose=bool(cfg.get("transpose", False)),
+              plot_rotation=False, plot_com=False, vectorized=bool(route.get("vectorized", True)))
+    with warnings.catch_warnings():
+        warnings.simplefilter("ignore")
+        ds = Q.Dataset4dstem.from_array(array=np.asarray(intensities4d, dtype=np.float32),
+                                        sampling=(st_r, st_c, 1.0 / (r0 * sr), 1.0 / (r1 * sc)), units=("A", "A", "A^-1", "A^-1"))
+        pd = Q.Raster.from_dataset4dstem(ds, verbose=0, learn_descan=False, learn_scan_positions=False)
+        if not route.get("delegated", True):
+            pd.preprocess(probe_energy=cfg["energy"], **kw)
+        dz0 = (list(cfg["dz"]) if S > 1 else None)
+        if S > 1 and route.get("dz_attribute"):
+            dz0 = [d + 3.0 for d in cfg["dz"]]
+        if route.get("obj_from_array"):
+            arr = np.asarray(phi, dtype=np.float32) if cfg["obj_type"] == "potential" else np.exp(1j * np.asarray(phi)).astype(np.complex64)
+            om = Q.Obj.from_array(initial_obj=arr, slice_thicknesses=dz0, obj_type=cfg["obj_type"], rng=1)
+        else:
+            om = Q.Obj.from_uniform(num_slices=S, obj_type=cfg["obj_type"], slice_thicknesses=dz0, rng=1)
+        pm = Q.Probe.from_array(probe_array=np.asarray(probe_lib, dtype=np.complex64),
+                                probe_params={"energy": cfg["energy"], "semiangle_cutoff": 20.0}, rng=1)
+        p = Q.Pty.from_models(dset=pd, obj_model=om, probe_model=pm, detector_model=Q.Det(), rng=1, verbose=0)
+        if route.get("delegated", True):
+            p.preprocess(obj_padding_px=tuple(cfg["pad"]), **kw)
+        else:
+            p.preprocess(obj_padding_px=tuple(cfg["pad"]), plot_rotation=False, plot_com=False)
+        if S > 1 and route.get("dz_attribute"):
+            p.slice_thicknesses = list(cfg["dz"])
+    if not route.get("obj_from_array"):
+        with torch.no_grad():
+            if cfg["obj_type"] == "potential":
+                p.obj_model._obj.data = torch.tensor(np.asarray(phi), dtype=torch.float32)
+            else:
+                p.obj_model._obj.data = torch.tensor(np.exp(1j * np.asarray(phi)), dtype=torch.complex64)
+    if route.get("probe_setter", True):
+        p.probe_model.probe = np.asarray(probe_lib, dtype=np.complex64)
+    return p
+
+
+def reconstruct_via_attributes(p, loss_type, batch_size):
+    """one real reconstruct(num_iters=1) call whose options are given through ATTRIBUTES (ptycho.batch_size,
+    ptycho.optimizer_params + set_optimizers(), ptycho.constraints) instead of call arguments; optimiser steps are no-ops.
+    Returns the batch records."""
+    torch = _q().torch
+    rec = []
+    real_err = p.error_estimate
+
+    def err(pred, batch_indices, loss_type="l2_amplitude"):
+        loss, targets = real_err(pred, batch_indices, loss_type=loss_type)
+        rec.append({"indices": [int(i) for i in np.asarray(batch_indices)], "loss": float(loss.detach().double().item()),
+                    "pred": pred.detach().double().numpy()})
+        return loss, targets
+
+    p.batch_size = batch_size
+    p.optimizer_params = pt.sgd_params(0.0, 0.0)
+    p.set_optimizers()
+    p.constraints = {}
+    p.error_estimate = err
+    p.step_optimizers = lambda: None
+    try:
+        with pt.no_gc(), torch.enable_grad(), warnings.catch_warnings():
+            warnings.simplefilter("ignore")
+            p.reconstruct(num_iters=1, loss_type=loss_type)
+    finally:
+        del p.error_estimate
+        del p.step_optimizers
+    return rec
